@@ -88,9 +88,13 @@ func (cc *chainCtx) answers(rq *request, resp interface{}) (ok bool, item, why s
 			}
 		}
 	case *ctypes.ResultABCIQuery:
-		// recapp's documented mapping: path /key, data K reads the store key k/K
-		if string(v.Response.Key) != "k/"+rq.Key {
-			return false, "key", fmt.Sprintf("value of key %q relayed for a request about key %q", v.Response.Key, "k/"+rq.Key)
+		// recapp's documented mapping: path /key, data K reads the store key k/K; the two-level store answers with K itself
+		want := "k/" + rq.Key
+		if rq.StoreQuery {
+			want = rq.Key
+		}
+		if string(v.Response.Key) != want {
+			return false, "key", fmt.Sprintf("value of key %q relayed for a request about key %q", v.Response.Key, want)
 		}
 		if rq.Height != 0 && v.Response.Height != rq.Height {
 			return false, "query-height", fmt.Sprintf("value as of height %d relayed for a request about height %d", v.Response.Height, rq.Height)
